@@ -7,9 +7,11 @@
    occurrence of a scalar winning, repeated occurrences of an embedded message merged (= their payloads concatenated),
    absent fields read as zero values.  `to_pvtx` is mapAccountantVertexToProtoVertex on the msgpack model's vertex.
    The encoder is compared BYTE-EXACT with proto.Marshal on every generated case and the decoder with
-   proto.Unmarshal on those bytes and on every prefix of them (Run/CheckCodec.v).  Not modelled: wire types 1, 3, 4, 5
-   (never produced for these messages; the model decoder refuses them, the library skips them), UTF-8 validation of
-   string fields (known finding C19 non-UTF-8).  Definitions only. *)
+   proto.Unmarshal on those bytes and on every prefix of them (Run/CheckCodec.v).  Fixed-width records (wire types 1 and 5) are skipped as unknown
+   fields, string fields (Vertex 1; Transaction 1, 5, 6) must be valid UTF-8 in every record that carries them - on the way out
+   (`marshal_pvtx` refuses, the known finding C19 non-UTF-8) and on the way in -, every occurrence of an embedded message must
+   decode on its own.  Not modelled: groups (wire types 3 and 4, deprecated, never produced: the model refuses them; the library
+   skips a well-nested unknown group).  Definitions only. *)
 From Coq Require Import List Arith NArith ZArith Bool.
 From Verif Require Import WalletFile Msg Codec Msgpack.
 Import ListNotations.
@@ -44,12 +46,13 @@ Definition dec_varint (l : bytes) : option (N * bytes) :=
   end.
 
 (* ---------------------------------------------------------------- records of the wire grammar *)
-Inductive wval := WInt (v : N) | WBytes (b : bytes).
+Inductive wval := WInt (v : N) | WBytes (b : bytes) | WSkip.   (* WSkip: a fixed32 / fixed64 record, always an unknown field here *)
 Definition wfield : Type := N * wval.
 Definition enc_field (f : wfield) : bytes :=
   match snd f with
   | WInt v => enc_varint (fst f * 8) ++ enc_varint v
   | WBytes b => enc_varint (fst f * 8 + 2) ++ enc_varint (nlen b) ++ b
+  | WSkip => []                                                  (* never written *)
   end.
 Definition enc_fields (fs : list wfield) : bytes := flat_map enc_field fs.
 
@@ -71,6 +74,10 @@ Definition parse_step (rec : bytes -> option (list wfield)) (l : bytes) : option
         else None
       | None => None
       end
+    else if tag mod 8 =? 1 then
+      if 8 <=? nlen r then option_map (cons (tag / 8, WSkip)) (rec (skipn 8 r)) else None
+    else if tag mod 8 =? 5 then
+      if 4 <=? nlen r then option_map (cons (tag / 8, WSkip)) (rec (skipn 4 r)) else None
     else None
   end.
 Fixpoint parse (fuel : nat) (l : bytes) : option (list wfield) :=
@@ -84,20 +91,54 @@ Definition parse_all (l : bytes) : option (list wfield) := parse (S (List.length
 Fixpoint geti (k : N) (fs : list wfield) (acc : N) : N :=
   match fs with
   | [] => acc
-  | (n, w) :: r => geti k r (if n =? k then match w with WInt v => v | WBytes _ => acc end else acc)
+  | (n, w) :: r => geti k r (if n =? k then match w with WInt v => v | _ => acc end else acc)
   end.
 Fixpoint getb (k : N) (fs : list wfield) (acc : bytes) : bytes :=
   match fs with
   | [] => acc
-  | (n, w) :: r => getb k r (if n =? k then match w with WBytes b => b | WInt _ => acc end else acc)
+  | (n, w) :: r => getb k r (if n =? k then match w with WBytes b => b | _ => acc end else acc)
   end.
-Definition merge (acc : option bytes) (b : bytes) : option bytes :=
-  Some (match acc with None => b | Some a => a ++ b end).
-Fixpoint getm (k : N) (fs : list wfield) (acc : option bytes) : option bytes :=
+(* every occurrence of an embedded message, in order *)
+Fixpoint getm (k : N) (fs : list wfield) : list bytes :=
   match fs with
-  | [] => acc
-  | (n, w) :: r => getm k r (if n =? k then match w with WBytes b => merge acc b | WInt _ => acc end else acc)
+  | [] => []
+  | (n, w) :: r => if n =? k then match w with WBytes b => b :: getm k r | _ => getm k r end else getm k r
   end.
+
+(* ---------------------------------------------------------------- UTF-8 (RFC 3629, what unicode/utf8.Valid accepts) *)
+Definition between (lo b hi : N) : bool := (lo <=? b) && (b <=? hi).
+Definition cont (b : N) : bool := between 128 b 191.
+Fixpoint utf8_valid (l : bytes) : bool :=
+  match l with
+  | [] => true
+  | a :: r =>
+    if a <? 128 then utf8_valid r else
+    match r with
+    | [] => false
+    | b :: r1 =>
+      if between 194 a 223 then cont b && utf8_valid r1 else
+      match r1 with
+      | [] => false
+      | c :: r2 =>
+        if a =? 224 then between 160 b 191 && cont c && utf8_valid r2
+        else if between 225 a 236 || between 238 a 239 then cont b && cont c && utf8_valid r2
+        else if a =? 237 then between 128 b 159 && cont c && utf8_valid r2
+        else
+        match r2 with
+        | [] => false
+        | d :: r3 =>
+          if a =? 240 then between 144 b 191 && cont c && cont d && utf8_valid r3
+          else if between 241 a 243 then cont b && cont c && cont d && utf8_valid r3
+          else if a =? 244 then between 128 b 143 && cont c && cont d && utf8_valid r3
+          else false
+        end
+      end
+    end
+  end.
+Definition mem (k : N) (l : list N) : bool := existsb (N.eqb k) l.
+(* every length-delimited record of a string field carries valid UTF-8 (checked per record, also for one a later record overrides) *)
+Definition strs_ok (strs : list N) (fs : list wfield) : bool :=
+  forallb (fun f : wfield => match snd f with WBytes b => if mem (fst f) strs then utf8_valid b else true | _ => true end) fs.
 
 (* ---------------------------------------------------------------- the three messages *)
 Record pspice := PSpice { ps_cur : N; ps_sup : N }.
@@ -125,35 +166,50 @@ Definition vtx_wire (v : pvtx) : list wfield :=
   bfield 5 (pv_hash v) ++ bfield 6 (pv_left v) ++ bfield 7 (pv_right v) ++ ifield 8 (pv_weight v).
 Definition enc_pvtx (v : pvtx) : bytes := enc_fields (vtx_wire v).
 
+Definition is_some {A} (o : option A) : bool := match o with Some _ => true | None => false end.
 Definition dec_pspice (b : bytes) : option pspice :=
   match parse_all b with
   | Some fs => Some (PSpice (geti 1 fs 0) (geti 2 fs 0))
   | None => None
   end.
-Definition dec_sub {A} (dec : bytes -> option A) (o : option bytes) : option (option A) :=
-  match o with
-  | None => Some None
-  | Some b => match dec b with Some a => Some (Some a) | None => None end
+(* embedded message: absent -> nil; otherwise every occurrence must decode on its own, and the result is the merge of the
+   occurrences = the decoding of their concatenation *)
+Definition dec_sub {A} (dec : bytes -> option A) (bodies : list bytes) : option (option A) :=
+  match bodies with
+  | [] => Some None
+  | _ :: _ => if forallb (fun b => is_some (dec b)) bodies then option_map Some (dec (concat bodies)) else None
   end.
+Definition trx_strings : list N := [1; 5; 6].
+Definition vtx_strings : list N := [1].
 Definition dec_ptrx (b : bytes) : option ptrx :=
   match parse_all b with
   | Some fs =>
-    match dec_sub dec_pspice (getm 9 fs None) with
-    | Some sp => Some (PTrx (getb 1 fs []) (getb 2 fs []) (getb 3 fs []) (geti 4 fs 0) (getb 5 fs []) (getb 6 fs [])
-                            (getb 7 fs []) (getb 8 fs []) sp)
-    | None => None
-    end
+    if strs_ok trx_strings fs then
+      match dec_sub dec_pspice (getm 9 fs) with
+      | Some sp => Some (PTrx (getb 1 fs []) (getb 2 fs []) (getb 3 fs []) (geti 4 fs 0) (getb 5 fs []) (getb 6 fs [])
+                              (getb 7 fs []) (getb 8 fs []) sp)
+      | None => None
+      end
+    else None
   | None => None
   end.
 Definition dec_pvtx (b : bytes) : option pvtx :=
   match parse_all b with
   | Some fs =>
-    match dec_sub dec_ptrx (getm 4 fs None) with
-    | Some tr => Some (PVtx (getb 1 fs []) (geti 2 fs 0) (getb 3 fs []) tr (getb 5 fs []) (getb 6 fs []) (getb 7 fs []) (geti 8 fs 0))
-    | None => None
-    end
+    if strs_ok vtx_strings fs then
+      match dec_sub dec_ptrx (getm 4 fs) with
+      | Some tr => Some (PVtx (getb 1 fs []) (geti 2 fs 0) (getb 3 fs []) tr (getb 5 fs []) (getb 6 fs []) (getb 7 fs []) (geti 8 fs 0))
+      | None => None
+      end
+    else None
   | None => None
   end.
+
+(* proto.Marshal refuses a message with a string field that is not valid UTF-8 *)
+Definition strings_valid_ptrx (t : ptrx) : bool := utf8_valid (pt_subject t) && utf8_valid (pt_receiver t) && utf8_valid (pt_issuer t).
+Definition strings_valid_pvtx (v : pvtx) : bool :=
+  utf8_valid (pv_signer v) && match pv_trx v with Some t => strings_valid_ptrx t | None => true end.
+Definition marshal_pvtx (v : pvtx) : option bytes := if strings_valid_pvtx v then Some (enc_pvtx v) else None.
 
 (* ---------------------------------------------------------------- what Go values can be *)
 Definition wf_pspice (s : pspice) : Prop := ps_cur s < N64 /\ ps_sup s < N64.
@@ -175,3 +231,55 @@ Definition to_ptrx (t : mtrx) : ptrx :=
 Definition to_pvtx (v : mvtx) : pvtx :=
   PVtx (mv_signer v) (unixnano_u64 (mv_created v)) (ob (mv_sig v)) (Some (to_ptrx (mv_trx v)))
        (mv_hash v) (mv_left v) (mv_right v) (Z.to_N (mv_weight v)).
+
+(* ---------------------------------------------------------------- the gossip envelopes: VrxMsgGossip / TrxMsgGossip = the item + a REPEATED Gossiper *)
+Record pgos := PGos { pg_address : bytes; pg_digest : bytes; pg_sig : bytes }.
+Definition gos_strings : list N := [1].
+Definition gos_wire (g : pgos) : list wfield := bfield 1 (pg_address g) ++ bfield 2 (pg_digest g) ++ bfield 3 (pg_sig g).
+Definition enc_pgos (g : pgos) : bytes := enc_fields (gos_wire g).
+Definition dec_pgos (b : bytes) : option pgos :=
+  match parse_all b with
+  | Some fs => if strs_ok gos_strings fs then Some (PGos (getb 1 fs []) (getb 2 fs []) (getb 3 fs [])) else None
+  | None => None
+  end.
+(* a repeated message field: one record per element, an empty element included *)
+Definition rfield (k : N) (bodies : list bytes) : list wfield := map (fun b => (k, WBytes b)) bodies.
+Fixpoint dec_all {A} (dec : bytes -> option A) (l : list bytes) : option (list A) :=
+  match l with
+  | [] => Some []
+  | b :: r => match dec b, dec_all dec r with Some a, Some t => Some (a :: t) | _, _ => None end
+  end.
+Record pvmsg := PVMsg { pm_vertex : option pvtx; pm_gossipers : list pgos }.
+Definition vmsg_wire (m : pvmsg) : list wfield :=
+  mfield 1 (option_map enc_pvtx (pm_vertex m)) ++ rfield 2 (map enc_pgos (pm_gossipers m)).
+Definition enc_pvmsg (m : pvmsg) : bytes := enc_fields (vmsg_wire m).
+Definition dec_pvmsg (b : bytes) : option pvmsg :=
+  match parse_all b with
+  | Some fs =>
+    match dec_sub dec_pvtx (getm 1 fs), dec_all dec_pgos (getm 2 fs) with
+    | Some v, Some gs => Some (PVMsg v gs)
+    | _, _ => None
+    end
+  | None => None
+  end.
+Record ptmsg := PTMsg { pq_trx : option ptrx; pq_gossipers : list pgos }.
+Definition tmsg_wire (m : ptmsg) : list wfield :=
+  mfield 1 (option_map enc_ptrx (pq_trx m)) ++ rfield 2 (map enc_pgos (pq_gossipers m)).
+Definition enc_ptmsg (m : ptmsg) : bytes := enc_fields (tmsg_wire m).
+Definition dec_ptmsg (b : bytes) : option ptmsg :=
+  match parse_all b with
+  | Some fs =>
+    match dec_sub dec_ptrx (getm 1 fs), dec_all dec_pgos (getm 2 fs) with
+    | Some t, Some gs => Some (PTMsg t gs)
+    | _, _ => None
+    end
+  | None => None
+  end.
+Definition wf_pgos (g : pgos) : Prop :=
+  nlen (pg_address g) < N64 /\ nlen (pg_digest g) < N64 /\ nlen (pg_sig g) < N64 /\ utf8_valid (pg_address g) = true /\ nlen (enc_pgos g) < N64.
+Definition wf_pvmsg (m : pvmsg) : Prop :=
+  match pm_vertex m with Some v => wf_pvtx v /\ strings_valid_pvtx v = true /\ nlen (enc_pvtx v) < N64 | None => True end /\
+  Forall wf_pgos (pm_gossipers m).
+Definition wf_ptmsg (m : ptmsg) : Prop :=
+  match pq_trx m with Some t => wf_ptrx t /\ strings_valid_ptrx t = true /\ nlen (enc_ptrx t) < N64 | None => True end /\
+  Forall wf_pgos (pq_gossipers m).
